@@ -6,7 +6,9 @@ import (
 	"net/http"
 	"net/http/httptest"
 	"net/url"
+	"strconv"
 	"strings"
+	"sync"
 	"sync/atomic"
 )
 
@@ -16,6 +18,41 @@ type servers struct {
 	srv   *httptest.Server
 	jwks  []byte
 	calls struct{ jwks, introspect, introspectTenant, identity, metadata atomic.Int64 }
+	// answered: "<endpoint>_<status>" -> how often the endpoint answered presented credentials with that status class
+	mu       sync.Mutex
+	answered map[string]int64
+}
+
+// status answers with the status code the credential (or the tenant it names) asks for: a small JSON error document,
+// as identity providers send them.
+func (s *servers) status(w http.ResponseWriter, endpoint string, code int) {
+	s.mu.Lock()
+	if s.answered == nil {
+		s.answered = map[string]int64{}
+	}
+	s.answered[endpoint+"_"+strconv.Itoa(code)]++
+	s.mu.Unlock()
+	writeJSON(w, code, map[string]any{"error": http.StatusText(code)})
+}
+
+func (s *servers) statusAnswers() map[string]int64 {
+	s.mu.Lock()
+	defer s.mu.Unlock()
+	out := map[string]int64{}
+	for k, v := range s.answered {
+		out[k] = v
+	}
+	return out
+}
+
+// statusTenant: the status code a tenant (issuer) name with the given prefix carries.
+func statusTenant(tenant, prefix string) (int, bool) {
+	rest, ok := strings.CutPrefix(tenant, prefix)
+	if !ok {
+		return 0, false
+	}
+	n, err := strconv.Atoi(rest)
+	return n, err == nil && n >= 300 && n <= 599
 }
 
 const farFuture = 4102444800 // 2100-01-01
@@ -66,6 +103,10 @@ func (s *servers) handleJWKS(w http.ResponseWriter, r *http.Request) {
 	if r.URL.Path == "/jwks" {
 		tenant = r.Header.Get("X-Tenant")
 	}
+	if code, ok := statusTenant(tenant, issJWKSStatus); ok {
+		s.status(w, "jwks", code)
+		return
+	}
 	switch tenant {
 	case iss500:
 		w.WriteHeader(http.StatusInternalServerError)
@@ -84,9 +125,15 @@ func (s *servers) handleJWKS(w http.ResponseWriter, r *http.Request) {
 func (s *servers) handleMetadata(w http.ResponseWriter, r *http.Request) {
 	s.calls.metadata.Add(1)
 	iss, ok := strings.CutSuffix(strings.TrimPrefix(r.URL.Path, "/meta/"), "/.well-known/openid-configuration")
+	code, metaFailing := statusTenant(iss, issMetaStatus)
+	_, jwksFailing := statusTenant(iss, issJWKSStatus)
 	switch {
 	case !ok:
 		w.WriteHeader(http.StatusNotFound)
+	case metaFailing:
+		s.status(w, "metadata", code)
+	case jwksFailing: // the tenant exists; it is its JWKS endpoint that does not deliver
+		writeJSON(w, 200, map[string]any{"issuer": iss, "jwks_uri": s.srv.URL + "/jwks/" + iss, "introspection_endpoint": s.srv.URL + "/introspect"})
 	case iss == issMeta500:
 		w.WriteHeader(http.StatusInternalServerError)
 	case iss == issOK || iss == iss500 || iss == issGarbage || iss == issDrop:
@@ -140,6 +187,10 @@ func (s *servers) handleIntrospect(w http.ResponseWriter, r *http.Request) {
 		if failing(w, info.Class) {
 			return
 		}
+		if _, code, ok := statusOf(info.Class); ok {
+			s.status(w, "introspection", code)
+			return
+		}
 		resp := map[string]any{"active": true, "sub": info.Sub, "iss": issOK, "aud": []string{audOK}, "exp": farFuture, "token_type": "Bearer"}
 		switch info.Class {
 		case "valid":
@@ -182,6 +233,10 @@ func (s *servers) handleIdentity(w http.ResponseWriter, r *http.Request) {
 		return
 	}
 	if failing(w, info.Class) {
+		return
+	}
+	if _, code, ok := statusOf(info.Class); ok {
+		s.status(w, "identity", code)
 		return
 	}
 	resp := map[string]any{"id": info.Sub, "active": true, "expires_at": farFuture}
